@@ -140,34 +140,98 @@ func (e *c17Env) kindsFor(name string) (kinds []refc.Kind, known bool) {
 	return gen, true
 }
 
-func c17Shape(s string) string {
-	var b strings.Builder
-	last := byte(0)
-	put := func(c byte) {
-		if c != last {
-			b.WriteByte(c)
-			last = c
-		}
-	}
-	if s == "" {
+// c17Reason names, coarsely, why the reference calls an argument Invalid, so
+// that one defect gives one signature.
+func c17Reason(k refc.Kind, strs []string, i int) string {
+	v := strs[i]
+	if v == "" {
 		return "empty"
 	}
-	for i := 0; i < len(s) && b.Len() < 24; i++ {
-		c := s[i]
-		switch {
-		case c >= '0' && c <= '9':
-			put('9')
-		case c >= 'a' && c <= 'z' || c >= 'A' && c <= 'Z':
-			put('a')
-		case c >= 0x80:
-			put('U')
-		case c <= ' ':
-			put('_')
-		default:
-			put(c)
+	listHasEmpty := func() bool {
+		for _, e := range strings.Split(v, "|") {
+			if e == "" {
+				return true
+			}
 		}
+		return false
 	}
-	return b.String()
+	switch k {
+	case refc.KIPList:
+		if listHasEmpty() {
+			return "empty-element"
+		}
+		return "malformed-address"
+	case refc.KIPStart:
+		_, _, va := refc.ParseIP(strs[i])
+		_, _, vb := refc.ParseIP(strs[i+1])
+		if va == refc.Valid && vb == refc.Valid {
+			return "reversed-range"
+		}
+		return "malformed-address"
+	case refc.KHashList:
+		if listHasEmpty() {
+			return "empty-element"
+		}
+		for _, sec := range strings.Split(v, "|") {
+			if _, _, hv := refc.HashSection(sec); hv == refc.Invalid {
+				parts := strings.Split(sec, "-")
+				ok := len(parts) <= 2
+				for _, p := range parts {
+					if !isDigits(p) {
+						ok = false
+					}
+				}
+				if !ok {
+					return "malformed-number"
+				}
+				if len(parts) == 2 {
+					if _, _, rv := refc.HashSection(parts[1] + "-" + parts[0]); rv == refc.Valid {
+						return "reversed-range"
+					}
+				}
+				return "out-of-range"
+			}
+		}
+		return "malformed-number"
+	case refc.KTime:
+		_, va := refc.ParseTime(strs[i])
+		_, vb := refc.ParseTime(strs[i+1])
+		if va == refc.Valid && vb == refc.Valid {
+			return "reversed-range"
+		}
+		bad := strs[i]
+		if va != refc.Invalid {
+			bad = strs[i+1]
+		}
+		return c17TimeReason(bad, 14)
+	case refc.KTimeOfDay:
+		bad := strs[i]
+		if _, _, va := refc.ParseTimeOfDay(bad); va != refc.Invalid && i+1 < len(strs) {
+			bad = strs[i+1]
+		}
+		return c17TimeReason(bad, 6)
+	case refc.KRegexp:
+		return "bad-regexp"
+	}
+	return "other"
+}
+
+func c17TimeReason(s string, digits int) string {
+	switch {
+	case s == "":
+		return "empty"
+	case len(s) != digits+1:
+		return "wrong-length"
+	case !isDigits(s[:digits]):
+		return "non-digit"
+	}
+	if _, ok := refc.ZoneOffset(s[digits]); !ok && !(s[digits] >= 'a' && s[digits] <= 'z') {
+		return "bad-zone"
+	}
+	if c := s[digits]; c == 'J' || c == 'j' {
+		return "bad-zone"
+	}
+	return "field-out-of-range"
 }
 
 // expect returns the signature of the violation that an err==nil result would
@@ -202,11 +266,7 @@ func (e *c17Env) expect(name string, lits []c17Lit) (sig string, allValid bool) 
 	v, bad := refc.ValidateArgs(kinds, strs)
 	switch v {
 	case refc.Invalid:
-		sh := c17Shape(strs[bad])
-		if k := kinds[bad]; k == refc.KIPStart || k == refc.KTime {
-			sh += "," + c17Shape(strs[bad+1])
-		}
-		return "accepts-invalid:" + kinds[bad].String() + ":" + sh, false
+		return "accepts-invalid:" + kinds[bad].String() + ":" + c17Reason(kinds[bad], strs, bad), false
 	case refc.Valid:
 		return "", true
 	}
